@@ -9,13 +9,24 @@ def run(tier):
     ck = C.Check("C03", tier)
     failed = ck.proofs()
     n_g, n_r = (45, 14) if tier == "quick" else (2500, 40)
-    res = P.run_family(ck, n_g, n_r, p_err=0.0, want_hist=False)
+    res = P.run_family(ck, n_g, n_r, p_err=0.3, want_hist=False)
     ties = pc.tie_violations(ck, res, want_kinds=("parse", "fail"))
     st = {"results_checked": 0, "failing_action_runs": 0, "with_actions": 0, "shapes": {}}
     nontrivial = set()
     validated = 0
     for r in res:
-        if not pc.is_lr1(r) or r["g"]["err"]:
+        if not pc.is_lr1(r):
+            continue
+        if r["g"]["err"]:
+            # grammars with error alternatives: only the error clause (a failing action ends Parse with that error)
+            for c in r["cases"]:
+                if c["kind"] == "fail":
+                    st["failing_action_runs"] += 1
+                    v = pc.verdict(c["impl"])
+                    log = pc.log_of(c["impl"]) or []
+                    if v != "acterr" or len(log) != c["extra"]:
+                        ck.violation("a failing action did not end Parse with its error (outcome %s, %d calls logged, failing call %d); tokens %s: `%s`" % (v, len(log), c["extra"], c["w"], c["impl"]),
+                                     {"bnf": r["text"], "op": c["line"], "impl": c["impl"]})
             continue
         if r["validate"].startswith("safe=1"):
             validated += 1
